@@ -48,7 +48,9 @@ concrete triple, plus model mismatch): (1) winner_idx "other" -> index 2;
 (2) _merge_names early return when only name_winner == "this" (moves from OTHER
 lost); (3) _three_way on contents with this/other swapped; (4)
 _merge_executable returning when winner == "other" and not modified (exec flips
-of OTHER lost); (12) _set_mode back to os.stat (= fix ec61b74 reverted); (6) _default_other_winner_merge "delete" -> "done" (OTHER's
+of OTHER lost); (12) _set_mode back to os.stat (= fix ec61b74 reverted); (13) `changed = True` dropped from the
+`if copied:` branch of _compute_transform (git: OTHER adds a copy of a BASE-version file while rewriting or
+renaming the source: the copy silently missing; pinned corpus + randomised copy shapes); (6) _default_other_winner_merge "delete" -> "done" (OTHER's
 deletions lost); (7) contents_pair ignoring symlink targets; (8) _merge_names
 only when changed_content (pure renames lost); (10) Merger.find_base choosing
 this_basis as base; (11) executability = other or this.  Equivalent under the
@@ -387,14 +389,15 @@ def git_family(base, this, other):
         for q, y in at.items():
             if x == y and p != q and other.get(q) != this.get(q):
                 return F_GITSAME
-    # (2) a blob that one side introduces somewhere has several candidate sources/targets (duplicate
-    # contents): rename detection may pair the wrong ones
+    # (2) a blob that one side introduces somewhere has several candidate SOURCES (duplicate contents in
+    # BASE): rename detection may pair the wrong one.  Several targets of one source (a copy: OTHER keeps or
+    # renames `a` and adds an identical `c`) are handled correctly by /repo and are NOT part of the family
     for t, a in ((this, at), (other, ao)):
         r = removed(t)
         for x in set(a.values()):
             srcs = [p for p, y in r.items() if y == x] + [p for p, e in base.items() if p != ROOT and p not in r and blob(e) == x]
             tgts = [p for p, y in a.items() if y == x]
-            if (srcs and len(srcs) + len(tgts) > 2):
+            if len(srcs) >= 2 and tgts:
                 return F_GITSAME
     # both sides move a file into a directory that does not exist in BASE
     for p, te in this.items():
@@ -714,9 +717,43 @@ def corpus_cases():
     return out
 
 
+OLD = b"".join(b"line %d\n" % i for i in range(8))
+
+
+def copy_case(shape, law, mtype="merge3", via="merger", old=OLD, xname="x", ex=False):
+    """git: OTHER adds `c`, a copy of the BASE version of `a` (dulwich reports it as copied), while it also
+    rewrites `a` (shape "modify") or renames it to `b` (shape "rename"); law L2 (THIS = BASE) or L4 (THIS
+    edits another file)."""
+    base = {ROOT: E(None, "", "d"), "fa": E(ROOT, "a", "f", old, ex), "fx": E(ROOT, xname, "f", b"x1\n", True)}
+    other = copy_tree(base)
+    if shape == "modify":
+        other["fa"]["content"] = b"completely rewritten\n"
+    else:
+        other["fa"]["name"] = "b"
+    other["nc"] = E(ROOT, "c", "f", old, ex)
+    this = copy_tree(base)
+    if law == "L4":
+        this["fx"]["content"] = b"x1\nthis edit\n"
+    exp = copy_tree(other)
+    exp["fx"] = dict(this["fx"])
+    return dict(fmt="git", mtype=mtype, via=via, rel=law, base=base, this=this, other=other, exp=exp,
+                info=dict(ops=["copy", shape], union_wf=True))
+
+
 def build_cases(ctx, n):
     rng = ctx.rng
     cases = corpus_cases()
+    # pinned: copies on git trees (seeded defect: `changed = True` dropped from the `if copied:` branch)
+    for shape in ("modify", "rename"):
+        for law in ("L2", "L4"):
+            cases.append(copy_case(shape, law))
+    # and randomised variants of the same shapes
+    for _ in range(ctx.pick(4, 40)):
+        old = b"".join(rng.choice([b"alpha\n", b"beta\n", b"gamma\n", b"delta %d\n" % rng.randint(0, 99)])
+                       for _ in range(rng.randint(6, 12)))
+        cases.append(copy_case(rng.choice(["modify", "rename"]), rng.choice(["L2", "L4"]),
+                               mtype=rng.choice(["merge3", "weave", "lca"]), via=rng.choice(["merger", "mfb"]),
+                               old=old, xname=rng.choice(["x", "d", "e"]), ex=rng.random() < 0.3))
     rels = ["L1", "L2", "L3", "L4", "L4", "L4", "A5", "T6"]
     k = 0
     tries = 0
